@@ -201,7 +201,7 @@ func (l *Gradient2Limit) OnSample(startTime int64, rtt int64, inFlight int, didD
 	// If the long RTT is substantially larger than the short RTT then reduce the long RTT measurement.
 	// This can happen when latency returns to normal after a prolonged prior of excessive load.  Reducing the
 	// long RTT without waiting for the exponential smoothing helps bring the system back to steady state.
-	if (longRTT / shortRTT) > 2 {
+	if shortRTT > 0 && (longRTT/shortRTT) > 2 {
 		l.longRTT.Update(func(value float64) float64 {
 			return value * 0.9
 		})
@@ -216,7 +216,11 @@ func (l *Gradient2Limit) OnSample(startTime int64, rtt int64, inFlight int, didD
 	// so set to 1.0 to indicate no queuing.  Otherwise calculate the slope and don't
 	// allow it to be reduced by more than half to avoid aggressive load-shedding due to
 	// outliers.
-	gradient := math.Max(0.5, math.Min(1.0, longRTT/shortRTT))
+	// A zero short RTT would turn the quotient into NaN (0/0) or +Inf; treat it as "no queueing".
+	gradient := 1.0
+	if shortRTT > 0 {
+		gradient = math.Max(0.5, math.Min(1.0, longRTT/shortRTT))
+	}
 	newLimit := l.estimatedLimit*gradient + float64(queueSize)
 	newLimit = l.estimatedLimit*(1-l.smoothing) + newLimit*l.smoothing
 	newLimit = math.Max(float64(l.minLimit), math.Min(float64(l.maxLimit), newLimit))
